@@ -703,6 +703,10 @@ class C09(core.Property):
         # every set_capacity call — by the controller entity below or by the ReduceCapacity fault — is logged
         # by wrapping the public method on this one object
         real_set_capacity = r.set_capacity
+        # since /repo ee30e3a the effective capacity is written by Resource._apply_capacity: the public
+        # set_capacity goes through it (inside a ReduceCapacity window with base x factors) and the fault
+        # calls it directly; trees without it write in set_capacity itself
+        real_apply = getattr(r, "_apply_capacity", None)
 
         def logged_set_capacity(capacity):
             try:
@@ -712,9 +716,16 @@ class C09(core.Property):
                 res = "err:ValueError"
                 raise
             finally:
-                out.append(f"cap {r.now.nanoseconds} {iv(capacity)} " + tail(res))
+                if real_apply is None or res != "resized":
+                    out.append(f"cap {r.now.nanoseconds} {iv(capacity)} " + tail(res))
 
         r.set_capacity = logged_set_capacity
+        if real_apply is not None:
+            def logged_apply(capacity):
+                real_apply(capacity)
+                out.append(f"cap {r.now.nanoseconds} {iv(capacity)} " + tail("resized"))
+
+            r._apply_capacity = logged_apply
 
         class Controller(Entity):
             def handle_event(self, event):
